@@ -1081,7 +1081,8 @@ func (r *run) heal(views int, faultFree bool) {
 		return m
 	}(), "view": startView})
 	budget := 400 * views // scheduler moves of the suffix
-	for budget > 0 {
+	rounds := 0           // rounds in which the timers of M fired
+	for budget > 0 && rounds <= 30 {
 		budget--
 		r.topUp()
 		done := true
@@ -1113,6 +1114,7 @@ func (r *run) heal(views int, faultFree bool) {
 		if minView >= startView+views {
 			break
 		}
+		rounds++
 		if r.rng.Intn(2) == 0 {
 			var ms []*hx.Node
 			for _, id := range r.live {
